@@ -190,3 +190,20 @@ fn scale(o: &mut Outcome) {
     }
     o.count("scale_inputs");
 }
+
+/// keyword tables of the codecs (MCCodecs): every keyword and mangled keyword, alone and with a "<kw>, " /
+/// "<kw>: " prefix, directly and as the value of every typed field of the document templates
+pub fn run_codecs(case: &Value, _seed: u64) -> Outcome {
+    let mut o = Outcome::default();
+    o.key = case.to_string();
+    let kw = case["kw"].as_str().unwrap_or("");
+    if case["k"] == "value" { return o; }
+    o.nontrivial = true;
+    let feats = vec![format!("keyword_of:{}", case["ty"].as_str().unwrap_or(""))];
+    for t in [kw.to_string(), format!("{}, ", kw), format!("{},", kw), format!("{}, x", kw), format!("{}:", kw), format!("{}:x", kw), format!(" {}", kw), format!("{} -b", kw), format!("{} [", kw)] {
+        feed_all(&mut o, &t, &feats);
+        feed_templates(&mut o, &t, &feats);
+    }
+    o.sample = json!({"keyword": kw, "calls": o.evals});
+    o
+}
